@@ -9,8 +9,10 @@ HERE = os.path.join(os.path.dirname(os.path.dirname(os.path.abspath(__file__))),
 
 SRO = ["relationship", "sighting"]
 # inter-property constraints, structured (kinds: le a<=b, lt a<b on timestamps; mutex; at_least_one; requires (if a present then b present);
-# if_true (if boolean a is true then b present); iff_present (a present <=> b present))
+# if_true (if boolean a is true then b present); iff_present (a present <=> b present); definition_by_type (a marking definition's `definition` is the
+# marking object its `definition_type` names, where the specification defines that type: statement, tlp))
 C21 = {
+    "objects:marking-definition": [{"k": "definition_by_type"}],
     "objects:indicator": [{"k": "lt", "a": "valid_from", "b": "valid_until"}],
     "objects:observed-data": [{"k": "le", "a": "first_observed", "b": "last_observed"}, {"k": "mutex", "of": ["objects", "object_refs"]}, {"k": "at_least_one", "of": ["objects", "object_refs"]}],
     "objects:sighting": [{"k": "le", "a": "first_seen", "b": "last_seen"}],
@@ -35,6 +37,7 @@ C21 = {
 # STIX 2.0 states one timestamp-order rule only (modified >= created, part of the common properties); the rules for valid_from/valid_until,
 # first_seen/last_seen and first_observed/last_observed arrived with 2.1 and create no obligation for 2.0 content.
 C20 = {
+    "objects:marking-definition": [{"k": "definition_by_type"}],
     "embedded:ExternalReference": [{"k": "at_least_one", "of": ["description", "url", "external_id"]}],
     "observables:artifact": [{"k": "mutex", "of": ["payload_bin", "url"]}, {"k": "at_least_one", "of": ["payload_bin", "url"]}, {"k": "requires", "a": "url", "b": "hashes"}],
     "observables:network-traffic": [{"k": "at_least_one", "of": ["src_ref", "dst_ref"]}, {"k": "if_true_forbids", "a": "is_active", "b": "end"}],
@@ -73,6 +76,10 @@ def audit(version):
             if version == "2.0" and key == "objects:marking-definition" and name == "created":
                 p["precision"], p["constraint"] = "millisecond", "exact"
                 model["deltas"].append("2.0 marking-definition.created: millisecond/exact (library: decided per input)")
+            # A5: the TLP marking object: tlp is one of the four lower-case levels (the specifications fix the four instances; other instances must not be used)
+            if key == "markings:tlp" and name == "tlp":
+                p["kind"], p["allowed"] = "enum", ["white", "green", "amber", "red"]
+                model["deltas"].append("%s.tlp: enumeration white/green/amber/red (library: any string, checked against the fixed instances by case-sensitive comparison)" % key)
             p["lenient"] = name in LENIENT_PROPS or (version == "2.0" and key == "objects:marking-definition" and name == "created")
             props.append(p)
         model["types"][key] = {"class": t["class"], "category": cat, "type": t.get("type") or "", "properties": props, "constraints": cons.get(key, []),
